@@ -3,7 +3,7 @@
 # derived seeds), extra environment and a timeout in seconds.
 PROPS = {}
 NOT_CLAIMED = {}
-HOOK_COMMITS = []
+HOOK_COMMITS = ['d073cfa']
 
 PROPS["C09"] = dict(
     pkg="c09", level="exploration",
@@ -182,5 +182,17 @@ PROPS["C11"] = dict(
     rule="generated programs x mode sequences",
     steps=[
         dict(test="^Test(Regress_C11|C11_Sites)$", quick=dict(checks=150, timeout=900), thorough=dict(checks=1500, shards=8, timeout=3000)),
+    ],
+)
+
+PROPS["C14"] = dict(
+    pkg="c14", level="exploration",
+    technique="rapid-generated directory populations checked against an exact expected-survivor oracle through a synchronous retention hook; real 1 s rotations for the un-hooked path",
+    level_text="Exploration over directory states and age configurations: populations mixing own rotated files, near misses, prefix-sharing foreign files, sibling-appender files, unrelated files and directories with modification times on both sides of the cut-off are cleaned through the build-tag-guarded synchronous hook; survivors must be exactly everything minus own files (name.<14 digits>) older than the maximum age (+-1 min tolerance), and the files being written must survive; the asynchronous path is exercised with real 1 s rotations.",
+    level_note="Uses the verif hook VerifClearExpiredFiles (add-only, build tag verif). Modification times are set with os.Chtimes; entries within one minute of the cut-off may go either way.",
+    rule="generated populations; real rotations",
+    steps=[
+        dict(test="^Test(Regress_C14|C14_Populations)$", quick=dict(checks=600, timeout=900), thorough=dict(checks=5000, shards=8, timeout=3000)),
+        dict(test="^TestC14_RealRotation$", quick=dict(timeout=900), thorough=dict(shards=2, timeout=3000)),
     ],
 )
